@@ -10,6 +10,15 @@ from . import gen as G
 from .gen import choice
 
 
+def _fix_knobs(k, fam):
+    """Knob values a family cannot be run with are a refusal, not a schedule: avoid them."""
+    if fam["penalty"] == "WeightedL1GroupL2" and "ws_strategy" in k:
+        k["ws_strategy"] = "fixpoint"
+    if fam["penalty"] == "SLOPE" and "opt_strategy" in k:
+        k["opt_strategy"] = "fixpoint"
+    return k
+
+
 def _gscale(prob):
     a = prob["family"].get("alpha_max_rm") or 0.0
     return a if a > 0 else 1.0
@@ -66,6 +75,9 @@ def _start(rng, prob, allow_cold=True):
 
 
 def _mk(check, seed, run, engine, prob, ops, rng):
+    for op in ops:
+        if op.get("knobs") is not None:
+            _fix_knobs(op["knobs"], prob["family"])
     return dict(check=check, seed=int(seed), run=int(run), engine=engine,
                 rng_seed=int(rng.integers(1 << 31)), family=prob["family"], data=prob["data"],
                 storage=prob["storage"], ops=ops)
